@@ -49,7 +49,21 @@ RULE = ('certificate hierarchies of chain length 1..4 built with the real securi
         'schedules; per schedule the extracted concurrent model (Model/ValidatorConc.v) must give the same verdict / exception '
         'class / Interests per validation, the same outstanding Interests after every event and the same key storage, '
         'and the oracle demands accept <-> chain for every finished validation, a verdict for every finite chain and ONE '
-        'verdict per (configuration, packet) over all schedules.  non-trivial = at least one validation that needs a certificate '
+        'verdict per (configuration, packet) over all schedules; '
+        'the CALLER\'S MEMORY: every wire handed to the library -- trust anchor, packet to validate, certificate Data delivered '
+        'by the face -- given as bytes / bytearray / memoryview of bytes / memoryview of a bytearray / a window at an offset of a '
+        'larger bytearray, and the caller goes on using its buffers: histories over anchor buffers and packet buffers with the '
+        'operations load(buffer, wire: in place when it fits) / overwrite(buffer: zeros, every bit flipped, shifted by one byte) / '
+        'build a validator from a buffer / validate the packet in a buffer, in which the anchor buffer is rewritten (zeros / '
+        'flipped / shifted / the OTHER anchor: same name shape and key type, other key) after the construction, between two '
+        'validations, to build a SECOND validator from the same buffer (then every instance is asked about packets of both '
+        'anchors), loaded back, two buffers swapped, the packet buffer reused for the next packet and wiped, plus random walks '
+        'over these operations (up to 3 instances, lvs / strict schema / bare, default or explicit own storages) that end with '
+        'every buffer wiped and every instance asked about everything; in the overlapping family every other random schedule '
+        'hands the anchors over in mutable buffers (optionally ONE buffer for all instances) that are overwritten before the '
+        'first validation starts; the model and the oracle are given the history of the CALLS with the wire each buffer held '
+        'at the call (theorem C14_memory_history_is_call_history; the history as written is also run on the extracted model '
+        'of the caller\'s memory, Model/ValidatorMem.v): the verdicts may depend on nothing else.  non-trivial = at least one validation that needs a certificate '
         'fetch or a constructor decision; distinct by (scenario tag, key types, order / schedule)')
 ASSUMPTIONS = [
     'signature verification and key import are oracles: the model receives the results of the real '
@@ -58,6 +72,11 @@ ASSUMPTIONS = [
     'NDNApp.express_interest delivers a Data only for the exact requested name (C03/C05); names are compared component-wise '
     '(MemoryKeyStorage keys on Name.to_bytes, injective on well-formed names: C09_wire_roundtrip)',
     'the retrievable-certificate world is fixed during a history',
+    'caller memory: a buffer is rewritten only after the call it was handed to has returned (constructor) / answered (validation), '
+    'never while a validation that was given views into it is in flight; a Data delivered by the face is handed over for good '
+    '(the library\'s stream and UDP faces deliver a fresh immutable bytes object per packet; express_interest returns views into '
+    'it and MemoryKeyStorage keeps such a view): delivered wires are given in every form but not rewritten '
+    '(RECEIVE_BUFFER_REUSED = False, docs/C14.md)',
     'overlapping validations: answers reach the application only through the harness events deliver / expire, the loop is run to '
     'quiescence between two events (virtual clock), so the event list is the linearisation; NDNApp wakes the validations that wait '
     'for one name in the order in which their Interests were expressed (model: CDeliver; cross-checked by comparing the outstanding '
@@ -806,6 +825,14 @@ def check_history(ctx, env, world, ops, tag, legacy=False, forms=None):
                      [1, 0], flag_errors[0])
 
     # ---- direct oracle: the specification evaluated on what the implementation did -------------------
+    # (the specification is a function of its arguments: one evaluation per (world tables, question) and scenario)
+    memo = world.__dict__.setdefault('_spec_memo', {})
+    wkey = (tuple(anchors), tuple(schema_ids), len(world.pkts), hash(frozenset(world.store.items())))
+
+    def spec(key, request):
+        if (wkey, key) not in memo:
+            memo[(wkey, key)] = ctx.call(request())
+        return memo[(wkey, key)]
     insts = []      # (kind, schema_id, anchor_pid, storage key)
     shared = {}
     k = 0
@@ -816,10 +843,11 @@ def check_history(ctx, env, world, ops, tag, legacy=False, forms=None):
             if not isinstance(anchor, tuple):
                 if op[0] == 'lvs':
                     si = schema_ids.index(op[1])
-                    r = ctx.call([3, W, S[si], anchor])
+                    r = spec(('ctor', op[1], anchor), lambda: [3, W, S[si], anchor])
                     good_spec = bool(r[0] and r[1] and r[2])
                 else:
-                    r = ctx.call([3, W, [1, [], [[world.parse(anchor)['name'], [1, [b'x']]]], []], anchor])
+                    r = spec(('ctor', None, anchor),
+                             lambda: [3, W, [1, [], [[world.parse(anchor)['name'], [1, [b'x']]]], []], anchor])
                     good_spec = bool(r[2])
             else:
                 good_spec = False
@@ -846,7 +874,7 @@ def check_history(ctx, env, world, ops, tag, legacy=False, forms=None):
             continue
         a = world.parse(anchor)
         trust = [a['name'], a['content'][0], [] if kind == 'cascade' else [S[schema_ids.index(sid)][3]]]
-        ch = ctx.call([2, 64, W, trust, op[2]])
+        ch = spec(('chain', kind, sid, anchor, op[2]), lambda: [2, 64, W, trust, op[2]])
         chain = None if ch == [] else bool(ch[0])
         accepted = ob[1] == 'ok' and ob[2] == 1
         site = 'lvs_validator' if kind == 'lvs' else 'CascadeChecker.validate'
@@ -1399,10 +1427,12 @@ class ConcFace:
         self.pending = [e for e in self.pending if e[0] != tid] + [[tid, nb]]
 
 
-def run_conc_impl(env, world, ctors, threads, choose=None, script=None, own_storage=True):
+def run_conc_impl(env, world, ctors, threads, choose=None, script=None, own_storage=True, anchor_mem=None):
     """The instances of [ctors] on ONE NDNApp; the validations threads = [(instance, pid)] are started in that order,
     answers are delivered as the schedule says.  choose(step, enabled events) -> index, or script = the exact list
-    of events ('start', instance, pid) | ('deliver', name bytes) | ('expire',).  Returns the observations."""
+    of events ('start', instance, pid) | ('deliver', name bytes) | ('expire',).  anchor_mem = (form, how): the trust
+    anchors are handed over in buffers of the caller (how = 'same-buffer': ONE buffer, each anchor loaded in turn)
+    which it overwrites before the first validation starts.  Returns the observations."""
     from ndn.app import NDNApp
     from ndn.encoding import Name, TypeNumber
     from ndn.app_support.light_versec import lvs_validator
@@ -1411,18 +1441,29 @@ def run_conc_impl(env, world, ctors, threads, choose=None, script=None, own_stor
     face = ConcFace(world, loop)
     app = NDNApp(face=face, keychain=object())
     face.app = app
-    out = {'new': ('ok',), 'events': [], 'widths': [], 'queues': [], 'threads': [], 'caches': None}
+    out = {'new': ('ok',), 'events': [], 'widths': [], 'queues': [], 'threads': [], 'caches': None,
+           'anchor_mem': list(anchor_mem) if anchor_mem else None}
     storages = [MemoryKeyStorage() for _ in ctors] if own_storage else None
     results, tasks, started, vs = {}, [], [], []
     closing = False
     try:
         try:
+            cm = CallerMemory(world, {'anchor': anchor_mem[0]}) if anchor_mem else None
             for i, ctor in enumerate(ctors):
                 extra = [storages[i]] if own_storage else []
-                if ctor[0] == 'lvs':
-                    vs.append(lvs_validator(env.schemas[ctor[1]], app, world.pkts[ctor[-2]], *extra))
+                if cm is None:
+                    wire = world.pkts[ctor[-2]]
                 else:
-                    vs.append(CascadeChecker(app, world.pkts[ctor[-2]], *extra))
+                    bid = 'A0' if anchor_mem[1] == 'same-buffer' else 'A%d' % i
+                    cm.load(bid, 'anchor', ctor[-2])
+                    wire = cm.given(bid)[0]
+                if ctor[0] == 'lvs':
+                    vs.append(lvs_validator(env.schemas[ctor[1]], app, wire, *extra))
+                else:
+                    vs.append(CascadeChecker(app, wire, *extra))
+            if cm is not None:
+                for bid in list(cm.bufs):
+                    cm.scribble(bid, 'zero' if anchor_mem[1] == 'same-buffer' else anchor_mem[1])
         except Exception as e:   # noqa
             out['new'] = ('err', exc_code(e), type(e).__name__)
             return out
@@ -1561,6 +1602,7 @@ class ConcScenario:
                 'threads': [list(t) for t in self.threads],
                 'events': [list(e) for e in impl['events']], 'pkts': self.world.pkts,
                 'store': {k.hex(): list(v) for k, v in self.world.store.items()},
+                'anchor_mem': impl.get('anchor_mem'),
                 'observed': [(inst, pid, st[:2]) for inst, pid, st, _ in impl['threads']]}
 
     def correspondence(self, impl, case):
@@ -1641,9 +1683,12 @@ class ConcScenario:
                                   'is in flight / the order in which certificates arrive', case)
                 self.verdicts.setdefault(k, accepted)
 
-    def run_one(self, choose, own_storage=True):
-        impl = run_conc_impl(self.env, self.world, self.ctors, self.threads, choose=choose, own_storage=own_storage)
-        key = tuple(tuple(e) for e in impl['events'])
+    def run_one(self, choose, own_storage=True, anchor_mem=None):
+        impl = run_conc_impl(self.env, self.world, self.ctors, self.threads, choose=choose, own_storage=own_storage,
+                             anchor_mem=anchor_mem)
+        key = tuple(tuple(e) for e in impl['events']) + ((tuple(anchor_mem),) if anchor_mem else ())
+        if anchor_mem:
+            self.ctx.stat(f'conc-anchor-buffer-rewritten:{anchor_mem[1]}')
         if key in self.seen:
             return impl, False
         self.seen.add(key)
@@ -1677,7 +1722,9 @@ class ConcScenario:
             prefix = choices[:i] + [choices[i] + 1]
         for _ in range(n_random):
             r = random.Random(rng.getrandbits(32))
-            self.run_one(lambda step, en: r.randrange(len(en)), own_storage=r.random() < 0.8)
+            # every other one: the anchors sit in buffers of the caller which it overwrites after the constructions
+            am = (r.choice(FORMS_MUTABLE), r.choice(['zero', 'invert', 'shift', 'same-buffer'])) if _ % 2 == 0 else None
+            self.run_one(lambda step, en: r.randrange(len(en)), own_storage=r.random() < 0.8, anchor_mem=am)
 
 
 def alt_leaf(h, depth, k):
@@ -1934,12 +1981,12 @@ def gen_buffers(ctx, env):
     the next packet.  The model and the oracle are given the history of the wires that were in the buffers when they
     were handed over (value_ops): by the property nothing else may matter."""
     rng = ctx.rng
-    for wi in range(ctx.n(5, 40)):
+    for wi in range(ctx.n(4, 40)):
         w, a1, a2, pk, depth, kts = buffer_world(env, rng)
         same_len = len(w.pkts[a1]) == len(w.pkts[a2])
         hs = [(shape, how, ops) for shape, how, ops in buffer_histories(rng, a1, a2, pk, ctx.thorough)]
         hs += [('random-walk', 'mixed', random_buffer_history(rng, a1, a2, pk, rng.randrange(8, 16)))
-               for _ in range(ctx.n(8, 30))]
+               for _ in range(ctx.n(7, 30))]
         for hi, (shape, how, ops) in enumerate(hs):
             forms = {'anchor': FORMS[(wi + hi) % len(FORMS)] if (wi + hi) % 4 == 3 else
                      FORMS_MUTABLE[(wi + hi) % len(FORMS_MUTABLE)],
@@ -1956,9 +2003,6 @@ def gen_buffers(ctx, env):
 def run(ctx):
     env = Env(ctx)
     gen_buffers(ctx, env)
-    import os
-    if os.environ.get('C14_ONLY'):
-        return
     gen_concurrent(ctx, env)
     gen_same_key(ctx, env)
     gen_anchors(ctx, env)
@@ -1988,7 +2032,7 @@ def replay(ctx, data):
     if case.get('kind') == 'concurrent':
         sc = ConcScenario(ctx, env, w, [tuple(c) for c in case['ctors']], case['threads'], case['tag'])
         events = [tuple(e) for e in case['events']]
-        impl = run_conc_impl(env, w, sc.ctors, sc.threads, script=events)
+        impl = run_conc_impl(env, w, sc.ctors, sc.threads, script=events, anchor_mem=case.get('anchor_mem'))
         sc.check(impl, len(events) < MAX_EVENTS)
         ctx.case(('replay', case['tag']), nontrivial=True, sample={'tag': case['tag']})
         print('replayed', case['tag'], [e[0] for e in events], [(i, pid, st[:2]) for i, pid, st, _ in impl['threads']])
